@@ -9,6 +9,7 @@ package py
 import (
 	"math"
 	"math/big"
+	"math/cmplx"
 	"strconv"
 	"strings"
 )
@@ -337,19 +338,38 @@ func (a Float) M__rdivmod__(other Object) (Object, Object, error) {
 	return res, None, err
 }
 
+// floatPow is a ** b with the cases Python defines beyond the IEEE pow
+// function
+func floatPow(a, b Float) (Object, error) {
+	x, y := float64(a), float64(b)
+	finite := !math.IsInf(x, 0) && !math.IsInf(y, 0) && !math.IsNaN(x) && !math.IsNaN(y)
+	if finite && x == 0 && y < 0 {
+		return nil, ExceptionNewf(ZeroDivisionError, "0.0 cannot be raised to a negative power")
+	}
+	if finite && x < 0 && y != math.Floor(y) {
+		// A negative number raised to a fractional power is complex
+		return Complex(cmplx.Pow(complex(x, 0), complex(y, 0))), nil
+	}
+	r := math.Pow(x, y)
+	if finite && math.IsInf(r, 0) {
+		return nil, ExceptionNewf(OverflowError, "(34, 'Numerical result out of range')")
+	}
+	return Float(r), nil
+}
+
 func (a Float) M__pow__(other, modulus Object) (Object, error) {
 	if modulus != None {
 		return NotImplemented, nil
 	}
 	if b, ok := convertToFloat(other); ok {
-		return Float(math.Pow(float64(a), float64(b))), nil
+		return floatPow(a, b)
 	}
 	return floatNotImplemented(other)
 }
 
 func (a Float) M__rpow__(other Object) (Object, error) {
 	if b, ok := convertToFloat(other); ok {
-		return Float(math.Pow(float64(b), float64(a))), nil
+		return floatPow(b, a)
 	}
 	return floatNotImplemented(other)
 }
